@@ -21,10 +21,12 @@ use rayon::prelude::*;
 use serde_json::{Value, json};
 use std::alloc::{GlobalAlloc, Layout, System};
 use std::cell::Cell;
-use std::collections::BTreeMap;
+use std::cell::RefCell;
+use std::collections::{BTreeMap, BTreeSet};
 use std::sync::atomic::{AtomicBool, AtomicPtr, AtomicU64, AtomicUsize, Ordering};
 
 const PROP: &str = "C14";
+const SELFTEST_PROP: &str = "C14-selftest";
 
 // ---------------------------------------------------------------------------------------------
 // counting allocator
@@ -432,7 +434,23 @@ fn probe_cfg() -> ProbeCfg {
     ProbeCfg { begin: meter_begin, end: meter_end, debug: true, hash_always: true }
 }
 
+struct Rec<'a> {
+    rep: &'a Report,
+    sigs: RefCell<BTreeSet<String>>,
+}
+impl Rec<'_> {
+    fn violation(&self, sig: &str, case: Value, detail: String) {
+        self.sigs.borrow_mut().insert(sig.to_string());
+        self.rep.violation(sig, case, detail);
+    }
+}
+
 fn run(rep: &Report) {
+    run_on(rep, registry(), true);
+}
+
+fn run_on(rep: &Report, reg: Vec<TypeEntry>, full: bool) -> BTreeSet<String> {
+    let rec = Rec { rep, sigs: RefCell::new(BTreeSet::new()) };
     let thorough = rep.tier == Tier::Thorough;
     install_monitors(if thorough { 60 } else { 30 });
     let tp = tier_params(thorough);
@@ -445,7 +463,6 @@ fn run(rep: &Report) {
     rep.assume("a case that keeps one worker busy longer than the watchdog limit (30 s quick / 60 s thorough; cases take microseconds to milliseconds) counts as not terminating");
     rep.assume("proper prefixes and one-byte extensions are demanded to be rejected only relative to a base the untrusted decoder accepts");
 
-    let reg = registry();
     let pat = BlsPatterns::new();
     let pc = probe_cfg();
     let vcfg = ValueCfg { two_dev: thorough, check: false, prop: PROP };
@@ -513,12 +530,12 @@ fn run(rep: &Report) {
             *tot.more.entry(sig).or_insert(0) += n;
         }
         for f in a.findings {
-            rep.violation(&f.sig, f.case, f.detail);
+            rec.violation(&f.sig, f.case, f.detail);
         }
     }
     for (sig, n) in &tot.more {
         for _ in 0..*n {
-            rep.violation(sig, Value::Null, String::new());
+            rec.violation(sig, Value::Null, String::new());
         }
     }
     for ki in 0..6 {
@@ -546,6 +563,9 @@ fn run(rep: &Report) {
     rep.sample(json!({"type": "Program", "bytes": "ff x 100000", "expect": "error, no stack overflow"}));
     rep.sample(json!({"type": "ProofOfSpace", "bytes": "recorded v2 proof with one proof byte replaced", "expect": "decodes; to_bytes, hash, ==, Debug complete without panicking"}));
 
+    if !full {
+        return rec.sigs.into_inner();
+    }
     let cov = scan::coverage(&reg);
     rep.extra("source_scan", json!({
         "streamable_types_found_in_repo": cov.found,
@@ -554,6 +574,7 @@ fn run(rep: &Report) {
         "test_only_not_covered": cov.test_only,
         "registry_lines_not_seen_by_scan": cov.unknown_to_scan,
     }));
+    rec.sigs.into_inner()
 }
 
 fn replay(case: &Value) -> String {
@@ -607,9 +628,10 @@ fn parent() -> ! {
     };
     let crumb_txt = std::fs::read_to_string(&crumb).ok();
     let _ = std::fs::remove_file(&crumb);
+    let selftest = matches!(std::env::var("C14_SELFTEST").as_deref(), Ok("codecs" | "greedy"));
     if crumb_txt.is_none() {
         if let Some(c) = status.code() {
-            if (0..=2).contains(&c) {
+            if (0..=2).contains(&c) || selftest {
                 std::process::exit(c);
             }
         }
@@ -621,7 +643,7 @@ fn parent() -> ! {
         Some(s) => format!("signal-{s}"),
         None => format!("exit-{}", status.code().unwrap_or(-1)),
     });
-    let reg = registry();
+    let reg = if selftest { common::selftest::entries(true).0 } else { registry() };
     let tname = c.get("type").and_then(|t| t.parse::<usize>().ok()).and_then(|i| reg.get(i)).map(|e| e.name).unwrap_or("(unknown)");
     let hexs = c.get("hex").cloned().unwrap_or_default();
     let len = c.get("len").cloned().unwrap_or_default();
@@ -643,15 +665,62 @@ fn parent() -> ! {
         tier = Tier::Thorough;
     }
     let seed = std::env::var("VERIF_SEED").ok().and_then(|s| s.parse().ok()).unwrap_or(0);
-    let rep = Report::new(PROP, "exploration", tier, seed);
+    let rep = Report::new(if selftest { SELFTEST_PROP } else { PROP }, "exploration", tier, seed);
     rep.eval();
     rep.cap("the child process died at the case below; the rest of the enumeration did not run");
     rep.violation(&sig, json!({"kind": "bytes", "type": tname, "mutation": "(child died)", "base": "(see breadcrumb)", "hex": hexs}), detail);
-    std::process::exit(rep.finish())
+    let code = rep.finish();
+    if selftest {
+        let _ = std::fs::remove_file(format!("/verif/evidence/{SELFTEST_PROP}.json"));
+        if let Ok(rd) = std::fs::read_dir("/verif/replays") {
+            for e in rd.flatten() {
+                if e.file_name().to_string_lossy().starts_with(&format!("{SELFTEST_PROP}-")) {
+                    let _ = std::fs::remove_file(e.path());
+                }
+            }
+        }
+        let ok = sig == "C14/alloc/oversize-request" && tname == "Greedy";
+        println!("self-test {}: dead child reported as {sig} on type {tname}", if ok { "passed" } else { "FAILED" });
+        std::process::exit(if ok { 0 } else { 3 });
+    }
+    std::process::exit(code)
+}
+
+
+/// run the explorers over the deliberately broken codecs of `common::selftest` and demand the
+/// planted defects; writes its evidence under the property name below and removes it again
+fn selftest(expected_idx: usize, with_greedy: bool) -> ! {
+    mc::report::quiet_panics();
+    let (reg, e13, e14) = common::selftest::entries(with_greedy);
+    let expected = if expected_idx == 13 { e13 } else { e14 };
+    let rep = Report::new(SELFTEST_PROP, "exploration", Tier::Quick, 0);
+    let sigs = run_on(&rep, reg, false);
+    let code = rep.finish();
+    let _ = std::fs::remove_file(format!("/verif/evidence/{SELFTEST_PROP}.json"));
+    if let Ok(rd) = std::fs::read_dir("/verif/replays") {
+        for e in rd.flatten() {
+            if e.file_name().to_string_lossy().starts_with(&format!("{SELFTEST_PROP}-")) {
+                let _ = std::fs::remove_file(e.path());
+            }
+        }
+    }
+    let missing: Vec<&str> = expected.iter().copied().filter(|s| !sigs.contains(&format!("{PROP}/{s}"))).collect();
+    println!("self-test: reported {sigs:?}");
+    if missing.is_empty() && code == 1 {
+        println!("self-test passed: every planted defect was reported");
+        std::process::exit(0)
+    }
+    println!("self-test FAILED: not reported {missing:?} (exit code of the run {code})");
+    std::process::exit(3)
 }
 
 fn main() {
     if std::env::var_os("C14_CHILD").is_some() {
+        match std::env::var("C14_SELFTEST").as_deref() {
+            Ok("codecs") => selftest(14, false),
+            Ok("greedy") => selftest(14, true),
+            _ => {}
+        }
         mc::cli::main(PROP, "exploration", run, replay)
     } else {
         parent()
